@@ -31,8 +31,10 @@ import (
 	"os"
 	"os/exec"
 	"os/signal"
+	"sync"
 	"sync/atomic"
 	"syscall"
+	"time"
 
 	"github.com/creack/pty"
 	"golang.org/x/sys/unix"
@@ -46,6 +48,23 @@ type trzszPty struct {
 	cmd    *exec.Cmd
 	ch     chan os.Signal
 	closed atomic.Bool
+	output *ptyOutput
+}
+
+// ptyOutput is the reading side of the pty. It notes when the pty has nothing more to deliver:
+// the read that follows the last byte of a command that has exited fails.
+type ptyOutput struct {
+	*os.File
+	drained chan struct{}
+	once    sync.Once
+}
+
+func (o *ptyOutput) Read(p []byte) (int, error) {
+	n, err := o.File.Read(p)
+	if err != nil {
+		o.once.Do(func() { close(o.drained) })
+	}
+	return n, err
 }
 
 func setupVirtualTerminal() error {
@@ -59,7 +78,8 @@ func spawn(name string, arg ...string) (*trzszPty, error) {
 	if err != nil {
 		return nil, err
 	}
-	return &trzszPty{stdin: ptmx, stdout: ptmx, ptmx: ptmx, cmd: cmd}, nil
+	output := &ptyOutput{File: ptmx, drained: make(chan struct{})}
+	return &trzszPty{stdin: ptmx, stdout: output, ptmx: ptmx, cmd: cmd, output: output}, nil
 }
 
 func (t *trzszPty) OnResize(setTerminalColumns func(int32)) {
@@ -111,6 +131,14 @@ func (t *trzszPty) Close() {
 
 func (t *trzszPty) Wait() {
 	_ = t.cmd.Wait()
+	// what the command printed last may still be on its way through the pty and the output pump:
+	// give the reader the chance to reach the end before the caller exits
+	if t.output != nil {
+		select {
+		case <-t.output.drained:
+		case <-time.After(time.Second):
+		}
+	}
 }
 
 func (t *trzszPty) Terminate() {
